@@ -110,9 +110,36 @@ def run(ctx):
         cases.append((q + "".join(src) + q, "".join(bs), "random mixed"))
     run_cases_ = [c for c in cases if c[1] is not None]
     res = vh.run_cases([denote_ok(ls, b) for ls, b, _ in run_cases_], shards=12)
+    # one process, one after the other: literals that differ only in blank characters (raw or escaped, runs of different lengths), compiled through the
+    # library's entry point in three orders - what a literal denotes must not depend on which sources were compiled before it
+    blanks = [9, 10, 11, 12, 13, 32]
+    hist = []
+    for q in "'\"":
+        for c in blanks:
+            for kind, sp in spellings(c, q):
+                hist.append((q + sp + q, chr(c), "blank literal in a compile history"))
+                hist.append((q + "p" + sp + "q" + q, "p" + chr(c) + "q", "blank literal in a compile history"))
+                hist.append((q + "p" + sp + sp + "q" + q, "p" + chr(c) * 2 + "q", "blank literal in a compile history"))
+        for a in blanks:
+            for b2 in blanks:
+                hist.append((q + rawest(a, q) + rawest(b2, q) + q, chr(a) + chr(b2), "blank literal in a compile history"))
+    for lead in ("", " ", "\n", "\t "):
+        hist.append((lead + "'a b'", "a b", "blank literal in a compile history"))
+        hist.append((lead + "'a  b'", "a  b", "blank literal in a compile history"))
+        hist.append((lead + "'a\tb'" + lead, "a\tb", "blank literal in a compile history"))
+    orders = [hist, hist[::-1], rng.sample(hist, len(hist))]
+    before = [None] * len(run_cases_)
+    for od in orders:
+        run_cases_ = run_cases_ + od
+        before += [["find all " + x[0] for x in od[:k]] for k in range(len(od))]
+        res = res + vh.run_cases([denote_ok(ls, b) for ls, b, _ in od], shards=1)
     ev, nt = 0, 0
     kinds = {}
-    for (ls, b, lab), r in zip(run_cases_, res):
+    for (ls, b, lab), r, bf in zip(run_cases_, res, before):
+        if r.get("api_diff"):
+            ctx.violation("libvore.Compile + Run of `find all <literal>` differ from the parse + generate + run pipeline in the same process",
+                          {"literal": ls, "denotes_hex": vh.hexs(b), "kind": lab, "difference": str(r["api_diff"])[:400], "compiled_before_in_the_same_process": bf})
+            continue
         ev += 1
         kinds[lab] = kinds.get(lab, 0) + 1
         rep = {"literal": ls, "denotes_hex": vh.hexs(b), "kind": lab}
